@@ -24,7 +24,7 @@ define: U_COMPACT
 src: options.c
 enforce: spifopt_parse
 replace: find_long_option, find_short_option, handle_arglist
-giflags: --restrict-function-pointer spifopt_parse.function_pointer_call.1/vopt_help --restrict-function-pointer spifopt_parse.function_pointer_call.2/vopt_abstract
+giflags: --restrict-function-pointer spifopt_parse.function_pointer_call.1/vopt_help --restrict-function-pointer spifopt_parse.function_pointer_call.2/vopt_abstract --restrict-function-pointer handle_integer.function_pointer_call.1/vopt_help
 backend: sat
 loops: 1
 timeout: 300
@@ -41,6 +41,13 @@ const char *vg_old_ptr2, *vg_prog;
 #define VOPT_MAINLOOP_CLAUSES \
     __CPROVER_assigns(i, j, opt) \
     __CPROVER_loop_invariant(i == 1 && opt == NULL) \
+    __CPROVER_decreases((long) argc - (long) i)
+
+/* the loop that clears the words of a list option (inside the main loop, unreachable in this unit;
+ * the invariant is the true one) */
+#define VOPT_REMOVE_REST_CLAUSES \
+    __CPROVER_assigns(i, __CPROVER_object_whole(argv)) \
+    __CPROVER_loop_invariant(1 <= i && i <= argc) \
     __CPROVER_decreases((long) argc - (long) i)
 
 #define SURV_K   (vg_old_ptr != NULL)
